@@ -24,18 +24,21 @@ PROPS = {
             _c02("TestC18", "c18", (2, 6), (3, 300)),
             _c02("TestC02Params", "props", (3, 25), (4, 2500)),
             _c02("TestC02Slash", "props", (3, 25), (4, 2500)),
+            dict(_c02("TestC02Adversarial", "c02adv", (6, 40), (8, 1500)), crash_is_violation=True),
         ],
         rule="union profile: the histories generated for C01, C03 (corrupted signature shares), C07, C08, C10, C14, C15, C17 and C20 (valid and "
              "invalid messages of oracle, tss, bandtss, feeds, tunnel, restake with boundary and adversarial field values, dt from 0 to minutes) "
              "plus a parameter stage (every custom module's parameters drawn from edge values accepted by Params.Validate: percentages 0/100, quorum 0/1, "
              "periods 1/2^63/2^64-1, zero and huge limits, with and without price reporters) and a slashing stage (delegate / redelegate / undelegate / "
-             "restake / feeds votes with locks at full, half or full+1 power, then blocks carrying double-sign evidence with infraction heights 1-8 blocks back) are executed on 3 replicas of the real application (separate DB, home dir and VM) in one process; non-trivial = successful "
+             "restake / feeds votes with locks at full, half or full+1 power, then blocks carrying double-sign evidence with infraction heights 1-8 blocks back) and an adversarial-message stage (all 38 Msg types of the seven custom modules, each from a valid late-bound template of the current state and then with 0-3 fields mutated by a reflection-based mutator: boundary integers, foreign/empty addresses, huge coins and big integers, truncated/oversized bytes, repeated/emptied slices, wrong enum values, wrong Any contents; authority-only messages through real governance proposals; bursts of DKG rounds / signatures / reports / prices so that deep states are reached) are executed on 3 replicas of the real application (separate DB, home dir and VM) in one process; non-trivial = successful "
              "transactions of >=2 of the custom modules AND >=1 end block that did cross-module work (resolve, aggregate/fail/assign signing, "
              "tunnel packet, price update, penalty, transition) AND replicas compared on every block; distinct = hash of case JSON",
         explanation="totality: FinalizeBlock of every replica must return without error or panic for every generated block; determinism: after every "
                     "block all replicas must agree on the app hash and, per transaction, on code, codespace, gas wanted/used, data and the full event "
                     "list (Go randomises map iteration per range statement, so replicas in one process traverse maps in different orders). "
-                    "Failures of the donor properties' own oracles are ignored here (counted), only engine-level failures count.",
+                    "Failures of the donor properties' own oracles are ignored here (counted), only engine-level failures count. In the adversarial stage a "
+                    "FinalizeBlock that does not return within 60 s of wall clock is reported as a hang (the only wall-clock use; the case is journalled before "
+                    "execution, so a node process that dies - e.g. an abort inside the wasm VM - yields the journalled case as replay).",
         assumptions=["block execution is sequential inside a node, so map-iteration order is the relevant schedule; goroutine schedules are not varied",
                      "raw undecodable transaction bytes are outside the statement", "histories that write state directly (keeper-level set-up) stop being compared from that point (class tainted-by-direct-write)"],
         nt_floor=0.2,
